@@ -22,13 +22,14 @@ from ..core import Ctx, Infra, enc, subprocess_env, VERIF
 USES_TABLES = True
 
 THEOREMS = ["Builder.sim", "Builder.documented_eq_bound_partial", "Builder.kind_eq", "Builder.kind_eq_iff",
-            "Builder.exception_eq_partial", "Builder.exception_table_sound", "Builder.docstring_eq_partial",
+            "Builder.exception_eq", "Builder.exception_eq_of_tables", "Builder.exception_table_sound",
+            "Builder.exception_table_complete", "Builder.exception_tables_agree", "Builder.docstring_eq",
             "Builder.value_eq", "Builder.infer_type_sound", "Builder.infer_elements_sound", "Builder.infer_none_iff",
             "Builder.documented_eq_bound_setter_counterexample", "Builder.documented_eq_bound_annotation_counterexample",
             "Builder.documented_eq_bound_inherited_counterexample", "Builder.documented_eq_bound_tail_counterexample",
             "Builder.documented_eq_bound_rebinding_counterexample", "Builder.documented_eq_bound_overload_counterexample",
-            "Builder.exception_eq_counterexample", "Builder.docstring_eq_counterexample", "Builder.kind_eq_counterexample",
-            "Builder.oldstyle_double_wrap_asserts"]
+            "Builder.kind_eq_counterexample", "Builder.oldstyle_double_wrap_asserts",
+            "Builder.exception_eq_counterexample_old", "Builder.docstring_eq_counterexample_old"]
 RULE = ("generated multi-module packages (package __init__, 1-3 modules, optional subpackage; a fixed helper module with "
         "identity decorators and a context manager): module/class-level class (external bases drawn from every exception "
         "name of builtins and a few non-exceptions, user bases within and across modules), def/async def with decorators "
@@ -51,9 +52,10 @@ ASSUMPTIONS = [
 PARTIAL = {
     "Builder.documented_eq_bound_partial": "hypothesis Subset.inSubset: each name bound once per scope (old-style wrapping of a plain method allowed once), "
         "no @x.setter/@x.deleter/@overload, no bare annotation, decorators bare classmethod/staticmethod/property in a class (at most one per def) or identity "
-        "decorators not named *property, else/finally parts bind nothing, no assigned class attribute shadowing an inherited method/class, "
-        "exception tables agree on the reachable external base names, no string statement right after a property. Each excluded construct has a counterexample theorem; "
-        "setter, bare annotation, inherited shadowing, missing exception names and string-after-property are recorded findings.",
+        "decorators not named *property, else/finally parts bind nothing, no assigned class attribute shadowing an inherited method/class. "
+        "(The exception-table clause of inSubset is vacuous for the generated tables: Builder.basesOk_generated.) Each excluded construct has a counterexample theorem; "
+        "setter, bare annotation and inherited shadowing are recorded open findings. Docstring (Builder.docstring_eq) and exception kind (Builder.exception_eq) "
+        "carry no exclusion of their own since fcaa577 / 769cae3; the former witnesses are kept as *_counterexample_old over labelled pre-fix definitions.",
     "Builder.kind_eq": "decorator lists accepted by Subset.decosOk (kind_eq_iff characterises agreement for all lists of evaluable decorators)",
 }
 EXPLANATION = ("Builder.scope transcribes ModuleVistor for one namespace, PySem.scope CPython's execution of the same statements; the theorems relate "
@@ -948,6 +950,21 @@ def check_tables(ctx: Ctx) -> None:
     extra = sorted(n for n in tbl if n not in py)
     ctx.extra["exception_table"] = {"pydoctor": len(tbl), "builtins": len(py), "missing_from_table": sorted(py - tbl),
                                     "not_exceptions_in_table": extra}
+    missing = sorted(py - tbl)
+    if missing:
+        # deterministic direct oracle for the names the generator might not draw: a direct subclass of each
+        src = "".join("class G%d(%s):\n    pass\n" % (i, n) for i, n in enumerate(missing))
+        s = model.System()
+        b = s.systemBuilder(s)
+        b.addModuleString(src, "m")
+        b.buildModules()
+        glob: Dict[str, Any] = {}
+        exec(src, glob)
+        for i, n in enumerate(missing):
+            o = s.allobjects["m.G%d" % i]
+            if o.kind is not model.DocumentableKind.EXCEPTION and issubclass(glob["G%d" % i], BaseException):
+                ctx.fail("kind:exception-not-in-table", {"files": {"m.py": "class G(%s):\n    pass\n" % n}},
+                         "class G(%s) is documented as %s; Python says it is an exception class" % (n, o.kind.name))
     if extra:
         ctx.fail("kind:table-name-not-an-exception", {"names": extra}, "names of _STD_LIB_EXCEPTIONS that are not exception classes: %s" % extra)
 
@@ -1073,7 +1090,7 @@ def run_batch(ctx: Ctx, batch, pyres) -> None:
     verdicts = ctx.driver.run_parallel(sub_reqs) if ctx.model_ok else ["out"] * len(sub_reqs)
     for v, (sc, pdinfo, pyinfo, files, inh, rq) in zip(verdicts, meta):
         ctx.count("subset:" + v)
-        if v == "in" and any(x - {"shadows-inherited"} for x in sc.labels.values()):
+        if v == "in" and any(x - {"shadows-inherited", "string-after-property"} for x in sc.labels.values()):
             # the generator's labels and the Lean predicate must agree on what is outside the subset
             ctx.disagree("subset-labels", {"scope": sc.qname, "labels": {k: sorted(x) for k, x in sc.labels.items()}, "files": files}, "in", "labelled")
         before = len(ctx.failures), sum(f["count"] for f in ctx.failures)
